@@ -4,7 +4,7 @@
 cd /verif
 for d in seeded/*/; do
   name=$(basename $d)
-  prop=$(python3 -c "import json;print(json.load(open('$d/meta.json'))['property'])")
+  prop=$(python3 -c "import json;m=json.load(open('$d/meta.json'));print(m.get('check_property',m['property']))")
   if ! git -C /repo apply --check /verif/$d/patch.diff 2>/dev/null; then
     if git -C /repo apply --3way --check /verif/$d/patch.diff 2>/dev/null; then :; else echo "$name prop=$prop PATCH-DOES-NOT-APPLY"; continue; fi
   fi
